@@ -190,7 +190,7 @@ func call(f func() error) outcome {
 	var ms0, ms1 runtime.MemStats
 	runtime.ReadMemStats(&ms0)
 	var err error
-	p, h, msg := vh.Guard(10*time.Second, func() { err = f() })
+	p, h, msg := vh.Guard(5*time.Second, func() { err = f() })
 	runtime.ReadMemStats(&ms1)
 	alloc := ms1.TotalAlloc - ms0.TotalAlloc
 	switch {
@@ -222,6 +222,10 @@ func judge(entry string, s *shape, m mut, in []byte, o outcome, stage string) bo
 	distinct[fmt.Sprintf("%s|%s|%s|%x", entry, stage, variantTag, in)] = struct{}{}
 	replay := map[string]interface{}{"entry": entry, "format": s.Fmt, "shape": s.P, "mutation": m, "input": fmt.Sprintf("%x", clipN(in, 600)), "inputLen": len(in), "variant": variantTag}
 	where := fmt.Sprintf("%s.%s:%s", s.Fmt, m.Field, mutName(m))
+	if res.Evaluations%613 == 1 {
+		res.Sample(map[string]interface{}{"entry": entry, "format": s.Fmt, "shape": s.P, "field": m.Field, "operator": mutName(m), "value": m.Val,
+			"input": fmt.Sprintf("%x", clipN(in, 120)), "inputLen": len(in), "outcome": o.kind}, 12)
+	}
 	if stage != "" {
 		entry = entry + "+" + stage
 	}
@@ -261,9 +265,15 @@ func main() {
 	flag.Int64Var(&seed, "seed", 1, "seed")
 	dir := flag.String("dir", "", "scratch directory")
 	only := flag.String("only", "", "comma separated formats (default all)")
+	child := flag.Bool("child", false, "internal: decode tasks from stdin under an address-space limit")
 	flag.BoolVar(&selftest, "selftest", false, "binding self-test: expect the valid export to be refused without effect")
 	flag.Parse()
 	debug.SetMemoryLimit(3 << 30)
+	if *child {
+		res = vh.NewResult()
+		childMain()
+		return
+	}
 
 	var cf casesFile
 	vh.ReadJSON(*casesPath, &cf)
@@ -303,6 +313,7 @@ func main() {
 			vh.Fatalf("no decoder bound to format %q", s.Fmt)
 		}
 	}
+	runChildJobs()
 	if len(exports) > 0 {
 		runExports(exports, *dir)
 	}
